@@ -23,6 +23,10 @@ def library(rng):
                  [[["IS", "SS"], ["IS", "IS"], r()], [["SI", "SS"], ["SI", "SI"], r()], [["IS", "SI"], ["IS", "II"], r()],
                   [["SI", "IS"], ["SI", "II"], r()], [["II", "SS"], ["II", "IS"], r()]]),
         "spont-only": (["A", "B", "C"], [["A", "B", r()], ["B", "C", r()], ["C", "A", r()]], []),
+        # legal specifications with edges that keep the changing node's status (an event that is logged but changes
+        # nothing: re-exposure of a recovered node, an 'I'->'I' renewal): the counts must simply repeat
+        "SIR+reexposure": (["S", "I", "R"], [["I", "R", r()]], [[["I", "S"], ["I", "I"], r()], [["I", "R"], ["I", "R"], r()]]),
+        "SIS+renewal": (["S", "I"], [["I", "S", r()], ["I", "I", r()]], [[["I", "S"], ["I", "I"], r()]]),
     }
     return lib
 
@@ -32,12 +36,12 @@ def random_spec(rng):
     spont, ind = [], []
     for x in sts:
         for y in sts:
-            if x != y and rng.random() < 0.25:
+            if (x != y and rng.random() < 0.25) or (x == y and rng.random() < 0.06):
                 spont.append([x, y, str(rng.choice(R))])
     for x in sts:
         for y in sts:
             for z in sts:
-                if y != z and rng.random() < 0.15:
+                if (y != z and rng.random() < 0.15) or (y == z and rng.random() < 0.04):
                     ind.append([[x, y], [x, z], str(rng.choice(R))])
     return sts, spont, ind
 
